@@ -950,12 +950,11 @@ func (e *Engine) fromTerm(s *State, tm *Term, t types.Type, name string) Val {
 				}
 			}
 		}
-		if tm.Op == "ite" && tm.Args[1].Op == "int" && tm.Args[1].I.Sign() == 0 && tm.Args[2].Op == "int" {
-			for _, o := range e.objByName {
-				if int64(o.id) == tm.Args[2].I.Int64() {
-					return &PtrV{Nil: tm.Args[0], Obj: o, Elem: u.Elem()}
-				}
+		if nilT, o, ok := e.decodeRef(tm); ok {
+			if o == nil {
+				return &PtrV{Nil: TTrue, Elem: u.Elem()}
 			}
+			return &PtrV{Nil: nilT, Obj: o, Elem: u.Elem()}
 		}
 		return &PtrV{Nil: Eq(tm, Int(0)), Obj: e.namedObject("*"+name, u.Elem(), true), Elem: u.Elem()}
 	case *types.Map:
@@ -1015,4 +1014,40 @@ func ownerRec(o *Object, fpath []int) writeRec {
 		return writeRec{obj: o}
 	}
 	return writeRec{obj: o, fpath: fpath[:len(fpath)-1]}
+}
+
+// decodeRef reads a reference code built from 0 (nil), object ids and ite's
+// over them that mention a single object: the condition under which it is
+// nil, and the object (nil object: the code is always 0).
+func (e *Engine) decodeRef(tm *Term) (*Term, *Object, bool) {
+	switch tm.Op {
+	case "int":
+		if tm.I.Sign() == 0 {
+			return TTrue, nil, true
+		}
+		if !tm.I.IsInt64() {
+			return nil, nil, false
+		}
+		for _, o := range e.objByName {
+			if int64(o.id) == tm.I.Int64() {
+				return TFalse, o, true
+			}
+		}
+		return nil, nil, false
+	case "ite":
+		n1, o1, ok1 := e.decodeRef(tm.Args[1])
+		n2, o2, ok2 := e.decodeRef(tm.Args[2])
+		if !ok1 || !ok2 {
+			return nil, nil, false
+		}
+		if o1 != nil && o2 != nil && o1 != o2 {
+			return nil, nil, false
+		}
+		o := o1
+		if o == nil {
+			o = o2
+		}
+		return Ite(tm.Args[0], n1, n2), o, true
+	}
+	return nil, nil, false
 }
